@@ -1,6 +1,7 @@
 //! Correspondence harness: generates cases, runs the real kitoken code in-process and writes
 //! `OP args :: implementation answer` lines for the Lean driver.
 mod c08;
+mod c10;
 mod c13;
 mod defs;
 mod gen;
@@ -29,6 +30,7 @@ fn run_line(state: &mut parse::RunState, request: &str) -> Option<(String, Strin
                 (it.next().unwrap().to_string(), it.next().unwrap().to_string())
             })
         }
+        Some("SPLIT") => c10::run_request(&words),
         Some("DEF") => parse::run_def(state, &words).map(|a| (request.to_string(), a)),
         Some("ENC") | Some("DEC") | Some("BPE") | Some("UNI") | Some("WP") => parse::run_encdec(state, &words),
         _ => None,
@@ -53,6 +55,7 @@ fn main() {
             match prop {
                 "C03" | "C04" | "C05" | "C06" => pieces::gen(prop, &mut rng, thorough, &mut out),
                 "C08" => c08::gen(&mut rng, thorough, &mut out),
+                "C10" => c10::gen(&mut rng, thorough, &mut out),
                 "C13" => c13::gen(&mut rng, thorough, &mut out),
                 "SMOKE" => smoke::gen(&mut rng, thorough, &mut out),
                 _ => {
